@@ -185,3 +185,209 @@ def check_C03(rep, tier):
     rep.assumptions += ["paths are normalised and relative, patterns use the portable syntax (* ? literals); the only uninterpretable pattern exercised is '[' in DISALLOW",
                         "glob::Pattern with default options is trusted as the fnmatch implementation",
                         "digests are compared as whole algorithm->value maps; sha256 only"]
+
+
+# ----------------------------------------------------------------------------- Verify.tla family
+def norm_sum(s):
+    if not isinstance(s, dict):
+        return None
+    return json.dumps({"mats": sorted(s["mats"], key=lambda a: a["p"]), "prods": sorted(s["prods"], key=lambda a: a["p"]),
+                       "cmd": s.get("cmd", ""), "byp": s.get("byp", "")}, sort_keys=True)
+
+
+class VerifyRun:
+    """TLC on a bounded instance of Verify.tla, then replay of every scenario through in_toto_verify."""
+
+    def __init__(self, rep, prop, tag=None):
+        self.rep = rep
+        self.prop = prop
+        self.sh = Sharder(tag or prop)
+        self.seen = {}
+        self.allow = {}
+        self.algo = {}
+        self.sums = {}
+        self.mustnot = {}
+        self.nontrivial_fn = lambda s: s["allow"] == ["err"] or bool(s["mustnot"])
+
+    def on_scn(self, s):
+        k = scn_key({"scn": s["scn"]})
+        i = self.seen.get(k)
+        if i is None:
+            i = self.sh.add({"m": "VERIFY", "prop": s["prop"], "scn": s["scn"]})
+            self.seen[k] = i
+            self.allow[i] = s["allow"]
+            self.algo[i] = set()
+            self.sums[i] = set()
+            self.mustnot[i] = set(s["mustnot"])
+            if self.nontrivial_fn(s):
+                self.rep.nontrivial(k)
+            if i % 1987 == 3:
+                self.rep.sample({"scenario": s["scn"], "allowed": s["allow"], "spec_outcome": s["out"], "spec_stage": s["stage"]})
+        self.algo[i].add(s["out"])
+        if s["out"] == "ok":
+            self.sums[i].add(norm_sum(s["sum"]))
+
+    def tlc(self, module, cfg, needed_actions=()):
+        st = run_tlc(module, cfg, self.prop.lower(), on_scn=self.on_scn, timeout=3000)
+        require_clean(st, module)
+        self.rep.add_tlc(st, module)
+        if needed_actions:
+            self.rep.vacuity(needed_actions)
+        log(f"{self.prop}: {self.sh.count} scenarios from TLC ({module}) in {st.wall:.0f}s")
+
+    def judge(self, r, env):
+        i = r["i"]
+        o = r.get("out", "harness:" + json.dumps(r)[:300])
+        rep = self.rep
+        mk = lambda i=i, r=r: {"scn": dict(self.sh.scenario(i), allow=self.allow[i]), "actual": {k: r.get(k) for k in ("out", "ran", "written", "sum", "msg")}, "env": env}
+        if o not in self.allow[i]:
+            rep.mismatch({"kind": "outcome", "actual": o, "allowed": self.allow[i], **{k: v for k, v in env.items() if k == "ITV_FAMILY"}}, mk)
+        bad = (set(r.get("ran", [])) | set(r.get("written", []))) & self.mustnot[i]
+        if bad:
+            rep.mismatch({"kind": "inspection_ran_before_checks", "names": sorted(bad)}, mk)
+        if o == "ok" and self.sums[i]:
+            if norm_sum(r.get("sum")) not in self.sums[i] or r.get("sum", {}).get("name", "") != "":
+                rep.mismatch({"kind": "summary", "actual": r.get("sum")}, mk)
+        if o not in self.algo[i]:
+            rep.cov["drift"] += 1
+        if o == "ok":
+            rep.cov["impl_accepted"] = rep.cov.get("impl_accepted", 0) + 1
+
+    def replay(self, fams, extra_env=None, per_shard_cwd=True, trace_runs=2500):
+        n = 0
+        for fi, fam in enumerate(fams):
+            env = {"ITV_FAMILY": fam}
+            if extra_env:
+                env.update(extra_env)
+            tracing = fi == 0 and trace_runs > 0
+            if tracing:
+                env["ITV_EVENTS"] = "1"
+                tpath = os.path.join(vlib.OUT, f"{self.prop}.verify.trace.ndjson")
+                tf = open(tpath, "w")
+                every = max(1, self.sh.count // trace_runs)
+                ntr = 0
+            self.sh.run(env_extra=env, per_shard_cwd=per_shard_cwd)
+            for r in self.sh.results():
+                n += 1
+                self.judge(r, env)
+                if tracing and r["i"] % every == 0 and "reset" in r:
+                    tf.write(json.dumps({"ev": "reset", "run": r["i"], "scn": r["reset"]}) + "\n")
+                    for e in r.get("ev", []):
+                        tf.write(json.dumps(e) + "\n")
+                    tf.write(json.dumps({"ev": "result", "out": r.get("out")}) + "\n")
+                    ntr += 1
+            if tracing:
+                tf.close()
+                self.validate(tpath, ntr)
+        self.rep.cov["evaluations"] += n
+        self.rep.cov["traces_validated_against_impl"] += n
+        self.rep.cov["key_families"] = fams
+        return n
+
+
+def _verify_validate(self, tpath, ntr):
+    desync = {}
+
+    total, rejected, tst = validate_trace(tpath, "Trace_Verify", "Trace_Verify.cfg", "tv" + self.prop.lower())
+    self.rep.cov["traces_validated_against_impl"] += total - len(rejected)
+    self.rep.cov["parts"]["trace"] = {"runs": total, "rejected": len(rejected), "states": tst.distinct}
+    for rj in rejected:
+        ev = rj.get("event")
+        self.rep.mismatch({"kind": "trace_rejected", "event": (json.loads(ev).get("ev") if ev else None)},
+                          {"trace": rj["lines"], "at": rj["at"], "event": ev})
+    with open(tpath) as f:
+        lines = [json.loads(x) for x in f.read().split("\n")[:12] if x]
+    self.rep.sample({"trace_prefix": [x if x["ev"] != "reset" else {"ev": "reset", "run": x["run"], "scn": "..."} for x in lines]})
+    os.remove(tpath)
+
+
+VerifyRun.validate = _verify_validate
+
+VERIFY_ASSUME = ["cryptographic primitives, hashing and DER/PEM codecs are abstracted (perfect signatures, injective ids); ring is trusted",
+                 "small scope: <= 3 functionary keys + 1 foreign key, <= 2 steps per layout, delegation depth <= 2",
+                 "the verification clock is pinned through the guarded hook (verif::set_now) so that time offsets are exact"]
+
+
+def check_C02(rep, tier):
+    rep.cov["rule"] = ("TLC enumerates layout key table x step key list x threshold x per-key state of the link file "
+                       "(absent / valid / signed by another key under this id / corrupted / tampered / misfiled / multiply "
+                       "signed / sub-layout / unparsable) and checks OkOnlyIfNec on Verify.tla; every scenario is built with "
+                       "real keys and files and run through in_toto_verify.  Non-trivial = the requirement demands failure.")
+    vr = VerifyRun(rep, "C02")
+    vr.tlc("MC_C02", f"MC_C02_{tier}.cfg", ["LayoutSig", "Expiry", "LoadLinks", "LinkSigs", "EnterSub", "Reduce", "StepRules", "Finish"])
+    rep.cov["exhaustive"] = True
+    vr.replay(families_for(tier))
+    vr.sh.cleanup()
+    rep.assumptions += VERIFY_ASSUME
+
+
+def _simple_verify(rep, tier, prop, rule, actions, extra=None, trace_runs=2500, fams=None):
+    rep.cov["rule"] = rule
+    vr = VerifyRun(rep, prop)
+    vr.tlc(f"MC_{prop}", f"MC_{prop}_{tier}.cfg", actions)
+    rep.cov["exhaustive"] = True
+    vr.replay(fams or families_for(tier), trace_runs=trace_runs)
+    if extra:
+        extra(vr)
+    vr.sh.cleanup()
+    rep.assumptions += VERIFY_ASSUME
+    return vr
+
+
+def check_C01(rep, tier):
+    _simple_verify(rep, tier, "C01",
+                   "TLC enumerates owner signer sets x caller key maps (empty, exact, superset, disjoint, aliased, mislabelled) x "
+                   "one post-signing edit of each layout field x signature list shapes (as signed, empty, corrupted, relabelled, "
+                   "duplicated) with everything downstream valid, and checks OkOnlyIfNec; each scenario is built with real keys, "
+                   "the edit applied to the shipped document, and run through in_toto_verify.  Non-trivial = C01 demands failure.",
+                   ["LayoutSig", "Expiry", "LoadLinks", "LinkSigs", "Reduce", "StepRules", "Finish"],
+                   fams=(vlib_all_fams() if tier == "thorough" else None))
+
+
+def vlib_all_fams():
+    return FAMILIES
+
+
+def check_C06(rep, tier):
+    def real_clock(vr):
+        # second pass without any clock hook: wall clock, only offsets at least a minute from the boundary
+        env = {"ITV_FAMILY": "ed25519", "ITV_CLOCK": "real"}
+        vr.sh.run(env_extra=env, per_shard_cwd=True)
+        n = 0
+        for r in vr.sh.results():
+            sc = vr.sh.scenario(r["i"])
+            exps = [d["expires"] for d in sc["scn"]["docs"] if d["typ"] == "layout"]
+            if any(abs(e) < 60 for e in exps):
+                continue
+            n += 1
+            vr.judge(r, env)
+        rep.cov["evaluations"] += n
+        rep.cov["real_clock_runs"] = n
+
+    _simple_verify(rep, tier, "C06",
+                   "TLC enumerates expiry offsets (far past ... -1 s, 0, +1 s ... far future) x RFC 3339 notations of the same "
+                   "instant (Z, +00:00, -00:00, positive/negative offsets, fractional seconds, lower case) x {top-level layout, "
+                   "delegated sub-layout}; replayed with the clock pinned through the hook (exact boundary) and again with "
+                   "the real clock and no hook for offsets >= 60 s.  Non-trivial = the layout is expired (failure required).",
+                   ["LayoutSig", "Expiry", "LoadLinks", "LinkSigs", "EnterSub", "Finish"], extra=real_clock)
+
+
+def check_C07(rep, tier):
+    _simple_verify(rep, tier, "C07",
+                   "TLC enumerates threshold {2,3} x 2..3 valid authorised links x which signer dissents x kind of dissent (path, "
+                   "digest, algorithm, extra / missing entry, empty) x side (materials / products) x an optional unauthorised or "
+                   "badly signed fourth link that differs and must be ignored; TLC explores every choice of representative link. "
+                   "Non-trivial = a valid authorised link dissents (failure required).",
+                   ["LayoutSig", "LinkSigs", "Agreement", "Reduce", "Finish"])
+
+
+def check_C08(rep, tier):
+    vr = _simple_verify(rep, tier, "C08",
+                        "TLC enumerates one failing cause per verification stage (bad owner signature, expiry, missing / unauthorised / "
+                        "badly signed link, unmet threshold, disagreeing links, failing step rule, failing sub-layout, or none) x inspection "
+                        "command behaviour (exit 0/1/2/255, killed by signal, not found; create / modify / delete a file) x accepting or "
+                        "rejecting inspection rules, a second inspection, a sub-layout with its own inspection.  Replay runs real commands "
+                        "in a fresh working directory and compares verdict AND side effects (sentinel files, <name>.link files) with the "
+                        "specification's MustNotRun set.  Non-trivial = failure required or some inspection must not run.",
+                        ["LayoutSig", "Expiry", "LoadLinks", "LinkSigs", "EnterSub", "Agreement", "Reduce", "StepRules",
+                         "RunInspection", "InspectRules", "Finish"], fams=["ed25519"] if tier == "quick" else ["ed25519", "ecdsa"])
